@@ -601,6 +601,43 @@ def r11_log_name_lookup(chk, prog, rule='R11'):
     chk.require(n >= 1, 'name lookups of Logging: %d' % n)
 
 
+def r12_stream_level(chk, prog):
+    """The stream front end (LOG_LEVEL( ...) << ..., `<< LogLevel`) hands the message level to Logging::log().  For
+    every named level (all enumerators except `undefined`) the level stored in the message is the level given: the
+    range check of operator <<( StreamLog&, LogLevel) rejects nothing the filters can name.  Decided by evaluating
+    the operator (Engine B) once per enumerator, message level still undefined."""
+    from ..boolshape import Interp, NeedAtom, Unsupported
+    en = prog.enums.get('celma::log::LogLevel')
+    chk.require(en is not None, 'enum celma::log::LogLevel not found')
+    vals = {e['name']: e['val'] for e in en['enumerators']}
+    chk.require('undefined' in vals and len(vals) >= 5, 'LogLevel enumerators: %s' % sorted(vals))
+    fs = [f for f in prog.functions if f.short == 'operator<<' and len(f.params) == 2 and
+          'StreamLog' in (f.params[0].get('t') or '') and (f.params[1].get('t') or '').endswith('LogLevel')]
+    chk.require(len(fs) == 1, 'operator <<( StreamLog&, LogLevel): %d definitions' % len(fs))
+    f = fs[0]
+    pname = f.params[1]['name']
+    for name, val in sorted(vals.items(), key=lambda kv: kv[1]):
+        if name == 'undefined':
+            continue
+        got = {}
+
+        def cb_set(itp, call, got=got):
+            got['level'] = itp.ev_obj(call_args(call)[0])
+            return 0
+        cbs = {'getLevel': lambda i_, c: vals['undefined'], 'setLevel': cb_set, 'operator<<': lambda i_, c: 0}
+        itp = Interp(f, {}, callbacks=cbs, prog=None)
+        itp.locals[pname] = val
+        itp.locals[f.params[0]['name']] = 0
+        try:
+            itp.run(f.body)
+        except (NeedAtom, Unsupported) as e:
+            raise AnalysisBroken('operator <<( StreamLog&, LogLevel) is not interpretable: %s' % getattr(e, 'key', e))
+        chk.check(got.get('level') == val, 'R12', f.name,
+                  'a message sent with level %s through the stream front end carries level %s' % (name, name), f.loc(),
+                  'the message level becomes %s: the filters see another level than the one named' % (
+                      [k for k, v in vals.items() if v == got.get('level')] or [got.get('level')])[0])
+
+
 def run(chk):
     units = units_matching('library/log/') + [os.path.join(VERIF, 'drivers', 'log.cpp')]
     if chk.tier == 'thorough':
@@ -637,3 +674,5 @@ def run(chk):
     r10_removal_is_exact(chk, prog)
     chk.rule('R11', 'logs are looked up by the exact name', 1)
     r11_log_name_lookup(chk, prog)
+    chk.rule('R12', 'the stream front end passes every named level on unchanged', 5)
+    r12_stream_level(chk, prog)
